@@ -294,13 +294,19 @@ Definition eval_location (conf : list dir) (tbl : matchtable) (q : request) (loc
           | NjsRedirect p => inr p
           end
       | [] =>
+          let tls_of pre :=
+            match dirs_named (pre ++ "_ssl_verify") body, dirs_named (pre ++ "_ssl_name") body,
+                  dirs_named (pre ++ "_ssl_trusted_certificate") body with
+            | v :: _, n :: _, c :: _ => if seqb (first_arg v) "on" then Some (first_arg n, first_arg c) else None
+            | _, _, _ => None
+            end in
           match dirs_named "proxy_pass" body, dirs_named "grpc_pass" body with
           | p :: _, _ => match pass_backends conf (first_arg p) with
-                         | Some bs => inl (OProxy false bs [])
+                         | Some bs => inl (OProxy false bs [] (tls_of "proxy"))
                          | None => inl (OStatus 500)
                          end
           | [], p :: _ => match pass_backends conf (first_arg p) with
-                          | Some bs => inl (OProxy true bs [])
+                          | Some bs => inl (OProxy true bs [] (tls_of "grpc"))
                           | None => inl (OStatus 500)
                           end
           | [], [] => inl (OStatus 404)
@@ -353,5 +359,17 @@ Definition eval_http (conf : list dir) (tbl : matchtable) (q : request) : outcom
           | Some s => eval_server conf tbl q s
           | None => match srvs with s :: _ => eval_server conf tbl q s | [] => ONoListener end
           end
+      end
+  end.
+
+(* the certificate file of the server that answers the TLS handshake for this request *)
+Definition eval_cert (conf : list dir) (q : request) : option string :=
+  let srvs := filter (server_listens (q_port q)) (dirs_named "server" conf) in
+  match q_sni q with
+  | None => None
+  | Some h =>
+      match pick_server None srvs h with
+      | Some s => match dirs_named "ssl_certificate" (block_of s) with c :: _ => Some (first_arg c) | [] => None end
+      | None => None
       end
   end.
